@@ -180,9 +180,10 @@ class RoundTrip(Harness):
                     if tier == "quick" and sub and shapes in (["s", "s"], ["same"]):
                         continue
                     out.append({"shapes": shapes, "sub": sub, "path": path})
-        # three protoclusters (non-consecutive numbering inside a candidate needs three): GenBank path only, cores == extents
+        # three protoclusters (non-consecutive numbering inside a candidate needs three): cores == extents, gene outside them
+        out.append({"shapes": ["s", "s", "s"], "sub": False, "path": "genbank", "ordered": True})
         if tier == "thorough":
-            out.append({"shapes": ["s", "s", "s"], "sub": False, "path": "genbank", "ordered": True})
+            out.append({"shapes": ["s", "s", "s"], "sub": False, "path": "json", "ordered": True})
         return out
 
     def vars(self, var):
@@ -209,6 +210,14 @@ class RoundTrip(Harness):
             c.append(shape_pre("r", "s", v, n))
         if var.get("ordered"):
             c.append(L.And(v["e0s0"] <= v["e1s0"], v["e1s0"] <= v["e2s0"]))   # symmetry: supplied by start
+            for i in range(3):
+                # middle protocluster core == extent, outer ones with a neighbourhood on one side, the gene outside all of them:
+                # the subject is the numbering of three areas and of the candidates formed from them
+                if i == 1:
+                    c.append(L.And(v["c%ds0" % i] == v["e%ds0" % i], v["c%de0" % i] == v["e%de0" % i]))
+                else:
+                    c.append(v["c%de0" % i] == v["e%de0" % i])      # neighbourhood on the left only
+                c.append(L.Or(v["ge0"] <= v["e%ds0" % i], v["e%de0" % i] <= v["gs0"]))
         return L.And(c)
 
     def build_record(self, var, v):
